@@ -67,10 +67,21 @@ func RunSpecLab(c *orch.Ctx, l *lab.Lab, bin string, projects []*synth.Project, 
 		for _, v := range versions {
 			tag := strings.ReplaceAll(v, ".", "")
 			vr := &VerRun{Version: v, SpecPath: filepath.Join(dir, "dist", "openapi"+tag+".json")}
+			// every other project is generated over the (much longer) outputs of an "earlier generation":
+			// whatever the run leaves at the output path must still be a whole, valid document
+			var stale []byte
+			if i%2 == 1 {
+				stale = []byte(`{"stale_output_of_an_earlier_generation": "` + strings.Repeat("x", 1<<18) + `"}` + "\n")
+				_ = os.MkdirAll(filepath.Dir(vr.SpecPath), 0o755)
+				_ = os.WriteFile(vr.SpecPath, stale, 0o644)
+				rp := filepath.Join(dir, "dist", "routes"+tag, "gleece.routes.go")
+				_ = os.MkdirAll(filepath.Dir(rp), 0o755)
+				_ = os.WriteFile(rp, []byte("package stale\n\n// "+strings.Repeat("stale ", 1<<15)+"\n"), 0o644)
+			}
 			vr.CLI = l.Gleece(bin, dir, p.Name+"-"+tag, 180, nil, "generate", cmd, "-c", "gleece.config."+tag+".json", "--no-banner")
 			vr.Accepted = vr.CLI.Exit == 0
 			vr.Crash = lab.Classify(vr.CLI.ProcResult)
-			if b, err := os.ReadFile(vr.SpecPath); err == nil {
+			if b, err := os.ReadFile(vr.SpecPath); err == nil && (stale == nil || string(b) != string(stale)) {
 				vr.SpecRaw = b
 				vr.Doc, vr.DocErr = oapi.Parse(b)
 			}
